@@ -13,7 +13,9 @@ def resultsOf (h : List Ev) : List (Nat × Bool × Bool) :=
 def visibleIds (h : List Ev) : List Id :=
   h.filterMap (fun e => match e with | .visible _ _ i => some i | _ => none)
 def isIncomplete (h : List Ev) : Bool := h.any (fun e => e == .incomplete)
-/-- transaction `k` had an EndTxn request that the broker handled while its response was lost, during its End call -/
+/-- transaction `k` had an EndTxn request that the broker handled while its response was lost, during its End call.
+(Implied by the monitor's `k ∈ s.lostEnd`, `Proof.Txn.LostInv.lost`; the converse fails only for histories with an
+`endStart` of another transaction between `endStart k` and the fault, which the sequential harness never emits.) -/
 def endResponseLost (k : Nat) : List Ev → Bool
   | [] => false
   | .endStart k' _ :: rest =>
